@@ -87,7 +87,7 @@ def gen_cases(tier, seed):
         if nest:
             spec += [{"p": "nst", "k": "d"}, {"p": "nst/in", "k": "d"}]
         for k in range(nsrc):
-            shape = r.choice(["tree", "tree", "tree", "file", "linkfile", "emptydir", "deep", "hardlink"]) if k or nsrc > 1 else r.choice(["tree", "tree", "file", "linkfile", "emptydir", "deep"])
+            shape = r.choice(["tree", "tree", "tree", "file", "linkfile", "emptydir", "deep", "hardlink", "linkdir"]) if k or nsrc > 1 else r.choice(["tree", "tree", "file", "linkfile", "emptydir", "deep", "linkdir"])
             if shape == "hardlink" and not any(s_ == "file" for s_ in shapes):
                 shape = "file"
             name = "s%d" % k
@@ -111,6 +111,11 @@ def gen_cases(tier, seed):
             elif shape == "hardlink":
                 # another name of an earlier top-level file: a source entry of its own
                 spec.append({"p": name, "k": "hard", "target": sources[shapes.index("file")]})
+            elif shape == "linkdir":
+                # a link to a directory, named on the command line: copied as a link, its children are not part of the selection
+                spec += [{"p": "rd%d" % k, "k": "d"}, {"p": "rd%d/inside" % k, "k": "f", "size": 300, "seed": r.randrange(1, 1 << 30), "segs": None},
+                         {"p": "rd%d/sub" % k, "k": "d"}, {"p": "rd%d/sub/deeper" % k, "k": "f", "size": 5, "seed": r.randrange(1, 1 << 30), "segs": None}]
+                spec.append({"p": name, "k": "l", "target": r.choice(["rd%d" % k, "rd%d" % k, "@ROOT@/rd%d" % k]) if "/" not in name else "@ROOT@/rd%d" % k})
             elif shape == "file":
                 spec.append({"p": name, "k": "f", "size": r.choice([0, 5, 4096, 70000]), "seed": r.randrange(1, 1 << 30), "segs": None})
             else:
@@ -143,7 +148,7 @@ def gen_cases(tier, seed):
             pre.append({"p": "dst", "k": "d"})
             if dstate == "populated":
                 for s, shape in zip(sources, shapes):
-                    if shape == "linkfile":
+                    if shape in ("linkfile", "linkdir"):
                         if r.random() < 0.5:
                             pre.append({"p": "dst/" + os.path.basename(s) if flag != "-T" else "dst", "k": "l", "target": "stale-target"})
                         continue
@@ -152,11 +157,15 @@ def gen_cases(tier, seed):
                             pre += [e for e in older_version(r, spec, s, "dst") if e["p"] != "dst"]
                     else:
                         pre += older_version(r, spec, s, "dst/" + os.path.basename(s))
-                if flag == "-T" and shapes[0] in ("file", "linkfile"):
+                if flag == "-T" and shapes[0] in ("file", "linkfile", "linkdir"):
                     # -T onto an existing directory with a non-directory source is an error case, not C02's
                     pre = [e for e in pre if e["p"] != "dst"] + []
                     dstate = "absent"
                 pre.append({"p": "dst/keep-me", "k": "f", "size": 21, "seed": 6, "segs": None}) if any(e["p"] == "dst" for e in pre) else None
+        for k_, sh_ in enumerate(shapes):
+            # what a relative link text would designate inside the destination directory: an unrelated entry there
+            if sh_ == "linkdir" and any(e["p"] == "dst" and e["k"] == "d" for e in pre) and r.random() < 0.7:
+                pre += [{"p": "dst/rd%d" % k_, "k": "d"}, {"p": "dst/rd%d/inside" % k_, "k": "f", "size": 17, "seed": 99, "segs": None}]
         spell = r.choice(["plain", "plain", "slash", "dot", "abs", "dotdot"])
         def sp(s, isdir):
             if spell == "slash" and isdir: return s + "/"
@@ -174,7 +183,7 @@ def gen_cases(tier, seed):
             args.append(r.choice(["-v", "-vv", "-vvv"]))
         if r.random() < 0.2:
             args += ["--block-size", r.choice(["512", "4096", "1MB"])]
-        if has_dir:
+        if has_dir or "linkdir" in shapes:
             args.append("-r")
         dsp = r.choice(["dst", "dst", "dst/", "@ROOT@/dst", "./dst"]) if dstate != "absent" or has_dir else "dst"
         if dstate == "file":
